@@ -1558,8 +1558,15 @@ def closure_program(rng, name: str) -> dict:
     ks = [f["name"] for f in frees]
     scalars = [f["name"] for f in frees if f["kind"] in ("float", "int")]
     k = lambda: rng.choice(ks)
-    body = [f"x = {rng.choice([f'op.Mul(A, {k()})', f'(A * {k()})', f'op.Add(A, {k()})', f'(A - {k()})'])}"]
+    body = []
     feats = {"closure", "closure-levels-%d" % levels}
+    if rng.random() < 0.2:
+        # a name of the surroundings that the function also assigns is LOCAL everywhere in it (c2aeb08, was C01-D42):
+        # assigned before every read here, so the program stays well-defined
+        loc = rng.choice(ks)
+        body.append(f"{loc} = {rng.choice(['op.Mul(A, 2.0)', 'op.Neg(B)', '(A + 1.0)'])}")
+        feats.add("closure-name-also-local")
+    body.append(f"x = {rng.choice([f'op.Mul(A, {k()})', f'(A * {k()})', f'op.Add(A, {k()})', f'(A - {k()})'])}")
     for _ in range(rng.randint(1, 3)):
         r = rng.random()
         if r < 0.4:
